@@ -730,6 +730,28 @@ func famSplice(sh *Shards, n int, stats map[string]int) error {
 // that make the stop and matrix registers wrap around -------------------------------------------------------------------
 func famGradients(sh *Shards, n int, stats map[string]int) error {
 	rng := newRand(11)
+	// well-formed graphics whose mapped coordinates are not finite or astronomically large (a viewBox without width; NaN,
+	// infinite and 3e38 coordinates in the 4-byte form): every run decodes them into a Renderer over raster/vec too
+	for di, d := range []struct {
+		vb   ivg.ViewBox
+		x, y float32
+	}{{ivg.ViewBox{MinX: 0, MinY: 0, MaxX: 0, MaxY: 8}, 5, 1}, {ivg.DefaultViewBox, float32(math.NaN()), float32(math.NaN())},
+		{ivg.DefaultViewBox, float32(math.Inf(1)), 1}, {ivg.DefaultViewBox, 3e38, 1}, {ivg.DefaultViewBox, -3e38, 3e38}, {ivg.DefaultViewBox, 1e10, -1e10}} {
+		var e encode.Encoder
+		e.Reset(d.vb, ivg.DefaultPalette)
+		e.HighResolutionCoordinates = true
+		e.StartPath(0, 1, 1)
+		e.AbsLineTo(d.x, d.y)
+		e.AbsLineTo(5, 5)
+		e.AbsQuadTo(d.x, 3, 4, d.y)
+		e.ClosePathEndPath()
+		b, err := e.Bytes()
+		if err != nil {
+			return err
+		}
+		nc, acc := traceDecode(sh.Next(), fmt.Sprintf("gradients/non-finite-geometry/%d", di), b, allFlags)
+		count(stats, "gradients", nc, acc)
+	}
 	k := 0
 	for _, ns := range []int{2, 3, 5, 17, 58, 60} {
 		for shape := 0; shape < 2; shape++ {
